@@ -16,6 +16,18 @@ DumpInv == done => PrintT(<<"BEH", ToJson([sc |-> Scenario, tr |-> tr])>>)
 \* CONSTRAINT of Gen_TcpConn_C06NoFin.cfg: clients that never half-close (random walks rarely leave a client silent until
 \* its deadline otherwise)
 NoFin == \A c \in Conns : ~st[c].cfin
+\* ACTION_CONSTRAINTs that steer random walks into orders they rarely take by themselves (each is a restriction of the
+\* environment only; the handler's actions are never constrained):
+SendsData(c) == Len(ob'[c].csent) > Len(ob[c].csent) /\ ob'[c].csent[Len(ob'[c].csent)].k = "data"
+\* the client sends its data chunks only after the target has closed completely (writes to the target are lost, then fail)
+DataOnlyAfterTClose == \A c \in Conns : SendsData(c) => st[c].tcl # "no"
+\* the client sends its data chunks only after it has seen the target's half-close (target ends first, upload goes on)
+DataOnlyAfterTargetFin == \A c \in Conns : SendsData(c) => Has(ob[c].clog, 0)
+\* the target speaks only after the handshake deadline of the connection has long passed (the relay outlives it)
+TargetSendsLate == \A c \in Conns : ob'[c].tsent > ob[c].tsent => now > ob[c].acceptAt + Timeout
+\* and the client does not end the connection before the target has spoken
+ClientFinAfterTarget == \A c \in Conns : (st'[c].cfin /\ ~st[c].cfin) => (ob[c].tsent > 0 \/ st[c].tgt # "up")
+LateRelay == TargetSendsLate /\ ClientFinAfterTarget
 \* Model finding -> behaviour.  With DrainMode = "inner" (tcp.go:307 as written) TLC finds a state in which a client that
 \* keeps an authenticated-but-invalid stream open sees the proxy's FIN, the target having closed only in response to the
 \* proxy's FIN.  Exhaustive BFS stops at the shortest such behaviour and prints it; c06 replays it on the real code.
